@@ -28,6 +28,8 @@ FLOORS = {"quick": {"conds": 8000, "nested": 3000, "coincident": 2000, "failed":
 # floors for the situations added with the later rounds of seeded changes (evidence that they were really exercised)
 FLOORS["quick"].update({'mixed_env_probes': 20})
 FLOORS["thorough"].update({'mixed_env_probes': 20})
+FLOORS["quick"].update({'big_arity_probes': 8})
+FLOORS["thorough"].update({'big_arity_probes': 8})
 PROFILE = {"weights": {"timeout": 4, "zero": 1, "wait": 2, "succeed": 2.5, "fail": 1.2, "spawn": 1, "join": 1,
                        "interrupt": 0.6, "cb": 0.5, "cond": 5, "chain": 0.4, "cbint": 0.1},
            "max_top": 5, "max_child_scripts": 3, "min_ev": 1, "max_ev": 3, "p_exact": 0.9, "p_raise": 0.15,
